@@ -199,6 +199,11 @@ pub fn classify<'a>(buf: &'a [u8], idx: usize) -> Option<Codepoint<'a>> {
                     match Byte::classify(*buf.get_unchecked(start))? {
                         Byte::Cont => (),
                         Byte::Start(n) => {
+                            if checked >= n {
+                                // The sequence that starts here ends before `idx`:
+                                // the byte at `idx` continues nothing.
+                                return None;
+                            }
                             let avail = buf.len() - start;
                             if avail >= n {
                                 let bytes = unsafe_slice(buf, start, n);
